@@ -421,10 +421,12 @@ class SurfaceMonitor(Monitor):
                 v = d.get(f)
                 if v is not None and not (isinstance(v, int) and not isinstance(v, bool)):
                     self.fail("notification-date-not-integer-ms", "%s=%r" % (f, v))
-            if self.standard(arn):
+            # only the last notification of this step for the execution can be compared with the record as it is now
+            is_last = not any(_detail(x).get("executionArn") == arn for x in notes[notes.index(n) + 1:])
+            if self.standard(arn) and is_last:
                 rec = engine_record(world, arn)
                 if rec is not None:
-                    # right after the publish the stored record must still hold epoch seconds
+                    # after the publish the stored record must still hold epoch seconds
                     for f in ("startDate", "stopDate"):
                         rv, nv = rec.get(f), d.get(f)
                         if rv is not None and nv is not None and nv != int(rv * 1000):
